@@ -211,13 +211,23 @@ func c18Winner(r *kit.Run, idx int64, rng *rand.Rand) {
 			}
 		}
 	}
+	// on an oversubscribed machine a spinning barrier costs milliseconds per
+	// round: goroutine 0 ends the case after a time budget (this bounds the
+	// amount of exploration only, never a verdict)
+	var stopAt atomic.Int64
+	stopAt.Store(int64(rounds))
+	t0 := time.Now()
 	kit.WithProcs(procs, func() {
 		var wg sync.WaitGroup
 		for g := 0; g < G; g++ {
 			wg.Add(1)
+			g := g
 			go func() {
 				defer wg.Done()
-				for v := 0; v < rounds; v++ {
+				for v := 0; int64(v) < stopAt.Load(); v++ {
+					if g == 0 && v%64 == 0 && time.Since(t0) > 2*time.Second {
+						stopAt.Store(int64(v + 1))
+					}
 					barrier(int64(G) * int64(2*v+1))
 					if !s.AddCheck(v) {
 						absent[v].Add(1)
@@ -231,6 +241,7 @@ func c18Winner(r *kit.Run, idx int64, rng *rand.Rand) {
 		}
 		wg.Wait()
 	})
+	rounds = int(stopAt.Load())
 	for v := 0; v < rounds; v++ {
 		if a, p := absent[v].Load(), present[v].Load(); a != 1 || p != 1 {
 			r.Violation("C18/Set.concurrent/same-value-race", idx, desc,
